@@ -704,6 +704,16 @@ def run_locate(case, ctx, rng):
         want = fl(Pi.astype(float))
         ctx.check("location-values", relerr(got_f, want, scale=np.abs(want).max()), 1e-6 if tensor else 1e-9, key + "/pixel-grid/float-coordinates", n=len(Pi), et=et)
         ctx.check("location-values", relerr(got_i, want, scale=np.abs(want).max()), 1e-6 if tensor else 1e-9, key + "/pixel-grid/integer-coordinates", n=len(Pi), et=et)
+        # the same integer points as a batch that is a full grid too, but not the pixels of an image listed row by row from (0, 0):
+        # a window of the grid that starts elsewhere, the whole grid listed column by column, and in random order
+        x0_, y0_ = int(rng.integers(1, 3)), int(rng.integers(1, 3))
+        win = (Pi[:, 0] >= x0_) & (Pi[:, 1] >= y0_) & (Pi[:, 0] <= nxp - 1)
+        order_c = np.lexsort((Pi[:, 1], Pi[:, 0]))
+        for tag, sel_ in (("window-not-at-origin", np.where(win)[0]), ("column-by-column", order_c), ("shuffled", rng.permutation(len(Pi)))):
+            with ctx.monitored("no-exception", f"{key}/pixel-grid/{tag}/raised"):
+                with quiet():
+                    got_w = mesh_eval(gmesh, Pi[sel_], gdofs)
+            ctx.check("location-values", relerr(got_w, want[sel_], scale=np.abs(want).max()), 1e-6 if tensor else 1e-9, f"{key}/pixel-grid/integer-coordinates@{tag}", n=len(sel_), et=et)
     ctx.describe(f"locate/{et}/{mc}", nontrivial and mesh.Ne >= 2 and deg >= 1, et=et, mesh=mc, degree=deg, Ne=mesh.Ne)
 
 
